@@ -40,5 +40,22 @@ func TestExhOddOperands(t *testing.T) {
 			}
 		}
 	}
+	// positions that exist only in templates
+	for ci, ctx := range oddops.TemplateContexts {
+		for oi, op := range oddops.Operands {
+			n++
+			if n%shards != shard {
+				continue
+			}
+			c := srcmut.Case{Input: probe.Input{Kind: "template", Files: map[string]string{"index.html": oddops.TemplateProgram(ctx, op)}, Main: "index.html"}, Origin: "oddops", Mutation: fmt.Sprintf("template-only ctx %d op %d", ci, oi)}
+			ev.Journal("build", c)
+			msg, o := judge(c)
+			record(c, o)
+			ev.NontrivialSample(map[string]any{"kind": c.Kind, "origin": c.Origin, "statement": strings.ReplaceAll(ctx, "%s", op), "built": o.Built, "error": fmt.Sprint(o.Err)}, "template-only", ctx, op)
+			if msg != "" {
+				ev.Fail(t, "build", c, "%s%s", msg, describe(c))
+			}
+		}
+	}
 	ev.Exhaustive()
 }
